@@ -24,6 +24,7 @@ def native_begin(inputs):
     MODE = "native"
     NATIVE_INPUTS.clear()
     NATIVE_INPUTS.update(inputs)
+    NATIVE_GHOST.clear()
     del NATIVE_LOG[:]
     _native_counter.clear()
 
@@ -209,8 +210,13 @@ def in_re(s, regex):
     return mkbool(z3.InRe(to_z3str(s), regex))
 
 
+NATIVE_GHOST = {}
+
+
 @native
 def ghost():
+    if MODE == "native":
+        return NATIVE_GHOST
     return core.cur().ghost
 
 
